@@ -1864,3 +1864,15 @@ var c02EipReviewed = []string{
 	"/kira.gov.MsgBlacklistPermissions = /kira.gov.MsgRemoveBlacklistedPermissions = /kira.gov.MsgRemoveWhitelistedPermissions",
 	"/kira.gov.MsgCouncilorActivate = /kira.gov.MsgCouncilorPause = /kira.gov.MsgCouncilorUnpause",
 }
+
+// c02For runs the authentication scenario inside the check of another property whose statement rests on it ("only the
+// address itself …", "only custodians count"): a message that executes in somebody's name without that somebody's
+// signature over it breaks those properties in the first place. Oracle keys are re-filed under the host property.
+func c02For(r *Rec, prop string) {
+	r.OnlyProp, r.AliasPrefix = prop, map[string]string{"C02/": prop + "/authentication/"}
+	rule := r.Extra["rule"]
+	runC02(r)
+	r.Extra["rule"] = rule
+	r.OnlyProp, r.AliasPrefix = "", nil
+	r.Mark("authentication done")
+}
